@@ -331,6 +331,59 @@ def _reveal_then_form(ctx, facts, rule, b):
     return False
 
 
+def keys_barrier(ctx, facts, rule):
+    """The MAC is linear: whoever knows the opened keys can change a row by a difference the keys annihilate and every
+    hash comparison still passes.  So a helper may send its key shares only once the *other* helpers can no longer
+    choose their shuffle messages: after it has heard from both peers that their last shuffle message is out (an awaited
+    step, placed after the helper's own shuffle function and before reveal_keys, that receives from the left and from the
+    right peer).  Local order alone (shuffle before verify on each helper) is not enough: H1's shuffle function returns
+    without receiving anything that depends on the others' last messages."""
+    ctx.rule(f"{rule}: between the helper's own shuffle (h*_shuffle_for_shard) and reveal_keys there is an awaited step whose call tree receives from the peer on the left and from the peer on the right (a barrier): the keys are opened only after every helper's shuffle messages are fixed")
+    base = "protocol::ipa_prf::shuffle::malicious::"
+    vb = async_body(facts, base + "verify_shuffle")
+    mb = async_main_body(facts, base + "malicious_sharded_shuffle")
+    if vb is None or mb is None:
+        return ctx.missing(rule, "verify_shuffle / malicious_sharded_shuffle")
+    ctx.count(bodies=2)
+
+    def receives_from_both(fn, depth=0, seen=None):
+        seen = seen if seen is not None else set()
+        dirs = set()
+        if fn in seen or depth > 4:
+            return dirs
+        seen.add(fn)
+        for hb in facts.tree(fn):
+            for bb, t in hb.calls():
+                c = F.callee(t)[0] or ""
+                if c.endswith("::receive") and t["args"]:
+                    dirs |= set(re.findall(r"'helpers::Direction', '(Left|Right)'", str(flow.expr_of(hb, t["args"][0], max_depth=14))))
+                elif c in facts.bodies and c.startswith("protocol::ipa_prf::shuffle::"):
+                    dirs |= receives_from_both(c, depth + 1, seen)
+        return dirs
+    found = False
+    rk = flow.find_calls(vb, re.compile(r"shuffle::malicious::reveal_keys$"))
+    vdom = vb.dominators()
+    for bb, t in vb.calls():
+        c = F.callee(t)[0] or ""
+        st = flow.settled(vb, bb) if c in facts.bodies else None
+        if rk and st is not None and flow.dominates(vdom, st["ready"], rk[0][0]) and receives_from_both(c) >= {"Left", "Right"}:
+            found = True
+    vs = flow.find_calls(mb, re.compile(r"shuffle::malicious::verify_shuffle$"))
+    sh = flow.find_calls(mb, re.compile(r"shuffle::sharded::h[123]_shuffle_for_shard$"))
+    mdom = mb.dominators()
+    for bb, t in mb.calls():
+        c = F.callee(t)[0] or ""
+        if c.endswith("_shuffle_for_shard") or c.endswith("verify_shuffle") or c not in facts.bodies:
+            continue
+        st = flow.settled(mb, bb)
+        after_shuffle = bool(sh) and any(bb in mb.reachable(x) for x, _ in sh) and not any(x in mb.reachable(bb) for x, _ in sh)
+        if vs and st is not None and after_shuffle and flow.dominates(mdom, st["ready"], vs[0][0]) and receives_from_both(c) >= {"Left", "Right"}:
+            found = True
+    ctx.ob(rule, "reveal_keys:after-both-peers-finished-their-shuffle", found,
+           "the keys are opened behind a barrier with both peers" if found else "a helper sends its MAC key shares as soon as its own shuffle function returns (for H1: after receiving only the row count), with no step that waits for both peers: a rushing helper that holds two of the three key shares learns the key before it has sent its last shuffle message and can alter rows by a difference the MAC does not see",
+           site_of(vb, rk[0][0]) if rk else site_of(vb))
+
+
 def malicious_reveal_guard(ctx, facts, rule):
     ctx.rule(f"{rule}: malicious_reveal returns Ok(Some(_)) only on the equal edge of a comparison between the share received from the left peer and the share received from the right peer; otherwise Err(MaliciousRevealFailed)")
     b = async_body(facts, "protocol::basics::reveal::malicious_reveal")
